@@ -1,5 +1,5 @@
 From Coq Require Extraction.
 From Coq Require Import ExtrOcamlBasic.
-From SA Require Import Base.Tok Mux.Policy.
-Definition dispatch := dispatch_c16.
+From SA Require Import Base.Tok Mux.Policy Mux.Connect.
+Definition dispatch := dispatch_c16_all.
 Extraction "model.ml" dispatch.
